@@ -1523,7 +1523,8 @@ def register(PROPS):
                   'C07': (['Time'], ['rs_calculate_max_thinking_time_eq']),
                   'C08': (['Ordering', 'Heuristic'], ['rs_killer_get_eq', 'rs_killer_put_eq', 'rs_sort_key_eq', 'rs_is_checkmate_eq', 'rs_evaluate_eq']),
                   'C11': (['Heuristic'], ['rs_score_from_value_eq', 'rs_evaluate_eq', 'rs_is_checkmate_eq']),
-                  'C12': (['Fen'], ['rs_validate_rank_eq']),
+                  'C12': (['Fen', 'FenDecode', 'FenFromStr', 'FenRoundtrip', 'FenWrite'],
+                          'rs_validate_rank_eq rs_fen_decode_eq rs_fen_decode_fromFenString rs_parse_player_states_eq rs_validate_ranks_eq rs_fen_from_str_eq rs_fen_from_str_startpos rs_fen_read_eq rs_fen_roundtrip_read rs_get_colored_piece_eq'.split()),
                   'C15': (['Square'], ['rs_from_chars_eq']),
                   'C18': (['Table'], 'rs_table_put_eq rs_table_put_no_panic rs_table_get_eq rs_table_len_eq rs_table_clear_eq rs_table_new_eq rs_table_run_eq rs_table_run_spec'.split()),
                   'C04': (['Magic'], 'rs_magic_hash_eq rs_magic_get_attacks_eq rs_rook_attacks_eq rs_bishop_attacks_eq rs_rook_magics_eq rs_bishop_magics_eq'.split()),
